@@ -1056,10 +1056,16 @@ fn run_case<K: Kind>(c: &CaseIn) -> Report {
             let bad = acc.iter().find(|(o, l)| *o < 0 || *o as u128 + *l as u128 > rlen as u128);
             let fam = family(&r.m);
             if let Some((o, l)) = bad {
+                // `expanded`: stored_len is above what the region holds.  Right after a rollback that is the
+                // documented overlay state; when it survives a commit (a restored tail slot deleted before
+                // the commit) the write path left the region short of stored_len
+                let left_short = K::RAW && stored > n_disk && !after_rollback;
                 let key = match r.target {
                     'o' | 'q' | 'y' if after_rollback => "read-only-clone-reads-past-region-after-rollback".to_string(),
+                    'o' | 'q' | 'y' if left_short => "read-only-clone-reads-past-region-left-short-by-commit-after-rollback".to_string(),
                     'o' | 'q' | 'y' => format!("read-only-clone-{fam}-reads-outside-region"),
                     _ if after_rollback => format!("{fam}-reads-outside-region-after-rollback"),
+                    _ if left_short => format!("{fam}-reads-outside-region-left-short-by-commit-after-rollback"),
                     _ => format!("{fam}-reads-outside-region"),
                 };
                 rep.v.push(format!("C20:{key} kind={} read={tok} access={o}+{l} region_len={rlen} regime={regime}", K::NAME));
@@ -1124,7 +1130,9 @@ fn run_case<K: Kind>(c: &CaseIn) -> Report {
             // a result computed from bytes outside the region is not predictable: both sides print `oob`
             let poisoned = is_cached && cache_poison.is_some() && cache_poison == last_cached_len;
             let shown = if (bad.is_some() || poisoned) && !matches!(out, Out::P | Out::Hang) { "oob".to_string() } else { names.show(&out) };
-            rep.o.push(format!("{} @ {}", shown, enc_acc(&acc)));
+            // (and its access list is not compared either: once a script has read outside the region the model stops
+            // following it; the outside access itself is reported by the C20 oracle above, with offset and length)
+            rep.o.push(format!("{} @ {}", shown, if shown == "oob" { "*".to_string() } else { enc_acc(&acc) }));
         }
     }
     vecdb::verif_hooks::MMAP_CROSSOVER_BYTES.set(1024 * 1024 * 1024);
